@@ -275,6 +275,20 @@ def _reference_rules(strictness: str) -> list:
     return _REFERENCE_FILES[strictness]
 
 
+def _shipped_equivalence_groups() -> list:
+    """ the equivalence groups of the shipped filter file, read independently (one comma-separated group per line) """
+    if "groups" not in _REFERENCE_FILES:
+        from antismash.detection import hmm_detection
+        groups = []
+        with open(hmm_detection.EQUIVALENCE_GROUPS, encoding="utf-8") as handle:
+            for line in handle:
+                names = frozenset(name.strip() for name in line.strip().split(",") if name.strip())
+                if names:
+                    groups.append(names)
+        _REFERENCE_FILES["groups"] = groups
+    return _REFERENCE_FILES["groups"]
+
+
 def check_get_ruleset(spec: dict) -> dict:
     """ a history of ruleset requests in one process: every ruleset must hold exactly the selected rules, in file
         order, each with the distances of the rule file scaled once by the multipliers of THAT request """
@@ -316,6 +330,22 @@ def check_get_ruleset(spec: dict) -> dict:
             text = str(rule.conditions)
             if seen_conditions.setdefault(rule.name, text) != text:
                 raise Violation("ruleset_conditions_changed", {"request": index, "rule": rule.name})
+        # which hits a kept rule gets to see must not depend on the rules left out: competing profiles are decided by
+        # the equivalence groups, so every group of the shipped file that holds a profile of a kept rule is intact
+        from vlib import rules as rule_model
+        used: set = set()
+        for ref in wanted:
+            used |= rule_model.profiles_of(ref["conditions"])
+            if ref.get("extenders"):
+                used |= rule_model.profiles_of(ref["extenders"])
+        with code_under_test("get_ruleset_total"):
+            got_groups = {frozenset(group) for group in ruleset.get_equivalence_groups()}
+        for group in _shipped_equivalence_groups():
+            if group & used and group not in got_groups:
+                raise Violation("ruleset_equivalence_groups", {
+                    "request": index, "group": sorted(group)[:8], "used_by_kept_rules": sorted(group & used)[:5],
+                    "closest": sorted(max(got_groups, key=lambda g: len(g & group), default=frozenset()))[:8],
+                    "history": spec["requests"][:index + 1]})
     distinct = len({json_key(r) for r in spec["requests"]})
     fungal = sum(1 for r in spec["requests"] if r["taxon"] == "fungi" and (r["mc"] != 1.0 or r["mn"] != 1.0))
     return {"nontrivial": distinct >= 2 and fungal >= 1,
